@@ -382,3 +382,54 @@ package gohbase
 //@   at return 8 assert[C09] ghostat("unavail", reg) == 0
 //@   at return 9 assert[C09] ghostat("unavail", reg) == 0
 //@   at return 10 assert[C09] ghostat("unavail", reg) == 0
+
+// ---- scanner: next region's start row, end-of-scan decision, fragment coalescing (C06); clean termination (C14) ----
+//@ func gohbase.(*scanner).isRegionScannerClosed
+//@   modifies nothing
+//@   ensures[C06,C14] r0 == (s.curRegionScannerID == 18446744073709551615)
+//@ func gohbase.(*scanner).openRegionScanner
+//@   requires s.curRegionScannerID == 18446744073709551615
+//@   modifies F.gohbase.scanner.curRegionScannerID
+//@   panics never[C06]
+//@   ensures[C06,C14] s.curRegionScannerID == scannerId
+
+//@ func gohbase.(*scanner).update
+//@   requires resp != nil && region != nil && s.rpc != nil
+//@   modifies F.gohbase.scanner.curRegionScannerID, F.gohbase.scanner.startRow
+//@   panics never[C06]
+// while the server has more rows of this region the position does not move
+//@   ensures[C06] resp.GetMoreResultsInRegion() ==> sameslice(s.startRow, old(s.startRow))
+//@   ensures[C06,C14] !resp.GetMoreResultsInRegion() ==> s.curRegionScannerID == 18446744073709551615
+// forward: the next region scan starts at this region's stop key - no gap, no overlap
+//@   ensures[C06] !resp.GetMoreResultsInRegion() && !s.rpc.Reversed() ==> sameslice(s.startRow, region.StopKey())
+// reversed: the closest key before this region's start key: drop a trailing 0x00, else decrement the last byte and pad with
+// eight 0xff (the documented approximation); the first region (empty start key) ends the scan at the empty key
+//@   ensures[C06] !resp.GetMoreResultsInRegion() && s.rpc.Reversed() && len(region.StartKey()) == 0 ==> len(s.startRow) == 0
+//@   ensures[C06] !resp.GetMoreResultsInRegion() && s.rpc.Reversed() && len(region.StartKey()) > 0 && region.StartKey()[len(region.StartKey())-1] == 0 ==> sameslice(s.startRow, region.StartKey()[:len(region.StartKey())-1])
+//@   ensures[C06] !resp.GetMoreResultsInRegion() && s.rpc.Reversed() && len(region.StartKey()) > 0 && region.StartKey()[len(region.StartKey())-1] != 0 ==> predKey(s.startRow, region.StartKey())
+//@ pred gohbase.predKey(p, k) = len(p) == len(k) + 8 && forall(i, 0 <= i && i < len(k) - 1, p[i] == k[i]) && p[len(k)-1] == k[len(k)-1] - 1 && forall(i, len(k) <= i && i < len(k) + 8, p[i] == 255)
+
+//@ func gohbase.(*scanner).isDone
+//@   requires resp != nil && region != nil && s.rpc != nil
+//@   modifies nothing
+//@   panics never[C06]
+// never early: done only if the server said so, or the region scan is finished and no key of the requested range lies
+// beyond this region in scan direction ([start, stop) forward, (stop, start] reversed; empty bound = unbounded)
+//@   ensures[C06] r0 ==> (resp.MoreResults != nil && !*resp.MoreResults) || (s.curRegionScannerID == 18446744073709551615 && ite(s.rpc.Reversed(), len(region.StartKey()) == 0 || (len(s.rpc.StopRow()) != 0 && lexle(region.StartKey(), s.rpc.StopRow())), len(region.StopKey()) == 0 || (len(s.rpc.StopRow()) != 0 && lexle(s.rpc.StopRow(), region.StopKey()))))
+// and not late (forward): a finished region whose stop key is not below the scan's stop row ends the scan
+//@   ensures[C06] !r0 && !s.rpc.Reversed() && s.curRegionScannerID == 18446744073709551615 ==> len(region.StopKey()) != 0 && (len(s.rpc.StopRow()) == 0 || lexlt(region.StopKey(), s.rpc.StopRow()))
+
+// cells of decoded results are never nil (repeated message fields)
+//@ pred gohbase.cellsNonNil(r) = r != nil ==> forall(k, 0 <= k && k < len(r.Cell), r.Cell[k] != nil)
+
+//@ func gohbase.(*scanner).coalesce
+//@   requires partial != nil && result != partial && cellsNonNil(result) && cellsNonNil(partial)
+//@   modifies F.pb.Result.Partial, F.pb.Result.Cell, F.pb.Result.Stale
+//@   panics never[C06,C11]
+// a first fragment is taken as it is; a complete row is never extended; a fragment of another row ends the row being
+// assembled (and is left in the stream); a fragment of the same row is appended, in order
+//@   ensures[C06] result == nil ==> r0 == partial && r1
+//@   ensures[C06] result != nil && !old(result.GetPartial()) ==> r0 == result && !r1 && sameslice(result.Cell, old(result.Cell))
+//@   ensures[C06] result != nil && r1 ==> r0 == result && len(result.Cell) == old(len(result.Cell)) + len(partial.Cell)
+//@   ensures[C06] result != nil && r1 ==> forall(k, 0 <= k && k < old(len(result.Cell)), result.Cell[k] == old(result.Cell[k])) && forall(k, 0 <= k && k < len(partial.Cell), result.Cell[old(len(result.Cell)) + k] == partial.Cell[k])
+//@   ensures[C06] result != nil && old(result.GetPartial()) && !r1 ==> r0 == result && !result.GetPartial() && sameslice(result.Cell, old(result.Cell))
